@@ -56,4 +56,83 @@ PROPS = {
         "assumptions": ["Go's strings.TrimSpace / unicode.IsSpace / utf8.AppendRune behave as documented (modelled by trimSpaceRight / appendRune, compared on every comment and \\u escape the generators produce)",
                         "the interning map of the running process may already hold keys from earlier cases; pointer identities are compared only within one case, numbered by first appearance"],
     },
+    "C17": {
+        "generated": True,
+        "proof_modules": ["GrolProofs.Props.C17"],
+        "theorems": ["Grol.Sanitize.C17.restricted_shape", "Grol.Sanitize.C17.restricted_confined", "Grol.Sanitize.C17.no_argument",
+                     "Grol.Sanitize.C17.accepted_iff", "Grol.Sanitize.C17.emptyOnly_iff",
+                     "Grol.Generated.IOFacts.C17.file_sites_expected", "Grol.Generated.IOFacts.C17.registration_conditions",
+                     "Grol.Generated.IOFacts.C17.process_site_confined"],
+        "suites": ["sanitize"],
+        "rule": "sanitize suite. Stream s (in-process, the real sanitizeFileName through the verif hook, called twice per case): every name of "
+                "length <=4 (quick) / <=5 (thorough; plus every name of length 6 under the restricted configuration, ~3M) over the 12-symbol "
+                "alphabet {g,r,Z,0,_,'.','/','\\',NUL,' ','~',0x80}, with and without '.gr' appended, x the 4 combinations of "
+                "(unrestricted, empty-only), plus the call without argument and 20k/200k longer random names biased to accepted names and "
+                "embedded/repeated suffixes. Stream f (real file system): one child process per configuration {restricted, empty-only, "
+                "load/save disabled, unrestricted} evaluates save(name)/load(name) through repl.EvalStringWithOption with its working directory "
+                "in a scratch tree under work/ with sentinel files in the parent, a sibling and a sub-directory; every name of length <=3 (quick) "
+                "/ <=4 (thorough) with and without '.gr', 31 names aimed at the sentinels, 1.5k/20k random names; after each call the tree is "
+                "re-listed and hashed, the changed paths and the loaded sentinel are compared with the model's prediction, and the tree is put back. "
+                "Unrestricted: a fixed list of 15 relative names (shows the sentinels are reachable without the sanitiser). "
+                "image.new(name,2,2); image.save(name) for the 31 aimed names x 4 configurations (touches ./grol.png only). "
+                "non-trivial = a call with an argument; distinct = distinct case line.",
+        "trusted_base": COMMON_TB + [
+            "modelled: extensions.sanitizeFileName, lexer.IsAlphaNum; from the source text (regenerated Grol/Generated/IOFacts.lean): the list of "
+            "calls into os (minus effect-free functions), os/exec, io/ioutil, syscall, net, net/http, plugin, x/sys/unix, path/filepath(Walk,Glob,..) "
+            "in the non-test, non-verif Go files with their argument text, and the `if` conditions enclosing each extension-name literal and each create* call",
+            "the fact extractor (harness/cmd/harness/extract*.go, go/parser + go/ast, syntactic: a file API reached through a function value, "
+            "a method on *os.File, or a dependency is not seen; fortio.org/terminal's history file is written by that library for the interactive REPL only)",
+            "not modelled: what os.Create/os.Open do with an accepted name (observed on the real file system by stream f instead), image.save beyond its file site"],
+        "assumptions": ["sites chosen by the host rather than the program are out of scope of the property: main.go processOneFile (script path on the command line), "
+                        "main_pprof.go (profile flags), wasm/dev_server.go (development server, !wasm build)"],
+    },
+    "C18": {
+        "generated": True,
+        "proof_modules": ["GrolProofs.Props.C18"],
+        "theorems": ["Grol.AutoSave.C18.atomic", "Grol.AutoSave.C18.failure_keeps_old", "Grol.AutoSave.C18.success_installs_new",
+                     "Grol.AutoSave.C18.frame", "Grol.AutoSave.run_writes",
+                     "Grol.Generated.IOFacts.C18.autosave_call_order", "Grol.Generated.IOFacts.C18.autosave_file_sites",
+                     "Grol.Generated.IOFacts.C18.saveglobals_writes"],
+        "suites": ["autosave"],
+        "rule": "autosave suite: a child process (re-exec of the harness, real extensions.Init + eval + repl.AutoSave, cwd = a scratch directory under work/) "
+                "is SIGKILLed by the verif crash-point hook at before-create, after-create, after each binding written by SaveGlobals, before-rename, "
+                "after-rename, or has its n-th write fail (with 0 or a random number of bytes of the line kept), for old states {no file, 1, 5, 50 bindings} "
+                "x new states {0 (nothing changed), 1, 5, 50 bindings, set+delete (changed, no binding of its own)}; values are random ints, strings, arrays, "
+                "maps, floats, lambdas and named functions; the lines a complete save writes are measured by one undisturbed reference run per state. "
+                "quick: the 50-binding states only against each other and 'no file', every 4th binding point; thorough: everything. Observed: exit kind, "
+                "bytes of .gr, bytes of the left-over temp file, and whether a fresh process auto-loading .gr dumps exactly those bytes. "
+                "non-trivial = the new state differs from the last save (the save is not skipped).",
+        "trusted_base": COMMON_TB + [
+            "modelled: repl.AutoSave (skip test, CreateTemp, SaveGlobals as one write per binding, Rename, error returns), abstract file system name -> bytes",
+            "assumed of the OS: rename(2) replaces the target atomically with respect to process death; completed write(2)/rename(2) survive the death of "
+            "the process; os.CreateTemp returns a fresh name different from .gr. Power loss / fsync are outside the property",
+            "the lines written (SaveGlobals' formatting and key order) are a parameter of the protocol model, measured from the real code per case",
+            "not modelled: the temp file is neither closed nor removed on error or crash (left-over .grol*.tmp files; observed and predicted, not part of the property)"],
+    },
+    "C09": {
+        "proof_modules": ["GrolProofs.Props.C09"],
+        "theorems": ["Grol.Memory.C09.sizeOk_sound", "Grol.Memory.C09.sizeOk_unchecked_unsound", "Grol.Memory.C09.unchecked_product_passes",
+                     "Grol.Memory.C09.arrRepeat_sound", "Grol.Memory.C09.strRepeat_sound", "Grol.Memory.C09.arrConcat_sound",
+                     "Grol.Memory.C09.mapAppend_sound", "Grol.Memory.C09.range_sound", "Grol.Memory.mulLen_spec",
+                     "Grol.Depth.C09.depth_invariant", "Grol.Depth.C09.reset_restores", "Grol.Depth.C09.chain_ok_iff", "Grol.Depth.run_ok_balanced"],
+        "suites": ["memory"],
+        "rule": "memory suite, 10^5 cases (quick). g: object.SizeOk(n) with the process memory limit set to one of {1, 2^20, 2^26, 2^30, 2^40, 2^62, max}, "
+                "n boundary-biased (0..600, 2^k+-2, around limit/16, 2^55..2^62 + 2^j whose byte size wraps, min/max int64, random), compared with the model on the "
+                "free value the call returns (93k). e: in-process evaluation of string*int, array*int, array+array, map+map and left:right with the memory limit "
+                "pinned to 1 byte (FreeMemory() < 0, so exactly the requests of <=256 objects pass): operand pairs around the 256-object / 4111-byte boundary and "
+                "boundary-biased int64 counts incl. products that overflow (7k; [] * huge is left out: see known candidate). c: 16 real programs in child processes "
+                "with GOMEMLIMIT=64MiB, ulimit -v and a 20 s timeout, far from the budget on either side, incl. the former overflow witnesses. "
+                "d: recursion of depth 0..39 run with MaxDepth around the measured need and in 10..310: outcome, counter at recovery, counter after Reset (150). "
+                "non-trivial = request above 256 objects (g) / every e, c, d case.",
+        "trusted_base": COMMON_TB + [
+            "modelled: object.SizeOk/MustBeOk/MulLen with FreeMemory() as a parameter (two readings), the size computations in evalStringInfixExpression, "
+            "evalArrayInfixExpression, evalIntegerInfixExpression (range), Map.Append; the depth counter of State.Eval and State.Reset",
+            "64-bit int (on 32-bit/wasm builds int(rightVal) truncates; MulLen's lo > math.MaxInt test covers it but the model is 64-bit only)",
+            "assumed: lengths of existing arrays/maps are below 2^62 / 2^61 (a 16-byte element cannot be stored 2^62 times in a 64-bit address space); "
+            "GOMEMLIMIT accounting (what FreeMemory() returns) is accurate",
+            "NOT covered here: wall-clock bound after the deadline, peak RSS, Go stack growth per frame, GC behaviour (runtime part of C09, measured elsewhere or not yet); "
+            "the other MustBeOk call sites in extensions (str functions) and object (function parameters/body)"],
+        "assumptions": ["candidate for the time part of C09, not a memory-guard issue: `[] * n` runs a Go-level loop of n iterations that appends nothing and never polls the "
+                        "context (the memory suite therefore leaves out empty arrays with huge counts)"],
+    },
 }
